@@ -1,14 +1,15 @@
 package gosym
 
 import (
-	"strconv"
 	"bytes"
 	"encoding/json"
 	"fmt"
 	opautil "github.com/open-policy-agent/opa/util"
 	"go/token"
 	"go/types"
+	"io"
 	"reflect"
+	"strconv"
 	"strings"
 	"time"
 	"unicode"
@@ -573,6 +574,31 @@ func registerEnvStubs(e *Engine) {
 		}
 		return dec.docs == 0
 	}
+	// Token after the document: the real decoder's answer for concrete text; for the abstract data text
+	// the end of input, unless the environment chose text after the document (fault flag decode.trailing)
+	in["(*encoding/json.Decoder).Token"] = func(fr *frame, a []value) value {
+		dec := (*a[0].(*value)).(nativeObj).v.(*jsonDecoder)
+		if dec.native != nil {
+			_, err := dec.native.Token()
+			if err == io.EOF {
+				return tuple{iface{}, fr.i.ioSentinel("EOF")}
+			}
+			if err != nil {
+				return tuple{iface{}, fr.i.nativeErr(err)}
+			}
+			return tuple{iface{t: types.Typ[types.String], v: "<<token>>"}, iface{}}
+		}
+		if dec.docs == 0 {
+			return tuple{iface{}, errIface(fr.i, "stub: invalid character looking for beginning of value")}
+		}
+		if fr.i.ps.flagDecide("decode.trailing") {
+			if fr.i.ps.choose(2) == 0 {
+				return tuple{iface{t: types.Typ[types.String], v: "<<token>>"}, iface{}}
+			}
+			return tuple{iface{}, errIface(fr.i, "stub: invalid character after top-level value")}
+		}
+		return tuple{iface{}, fr.i.ioSentinel("EOF")}
+	}
 	in["(*encoding/json.Decoder).UseNumber"] = func(fr *frame, a []value) value {
 		(*a[0].(*value)).(nativeObj).v.(*jsonDecoder).useNumber = true
 		return nil
@@ -609,9 +635,13 @@ func registerEnvStubs(e *Engine) {
 		}
 		// concrete text holding a JSON value is decoded by the real decoder: no environment choice
 		if text, ok := content.(string); ok && !dec.decided && !strings.HasPrefix(text, "<<") {
-			nd := json.NewDecoder(strings.NewReader(text))
-			if dec.useNumber {
-				nd.UseNumber()
+			nd := dec.native
+			if nd == nil {
+				nd = json.NewDecoder(strings.NewReader(text))
+				if dec.useNumber {
+					nd.UseNumber()
+				}
+				dec.native = nd
 			}
 			var n any
 			err := nd.Decode(&n)
@@ -725,8 +755,21 @@ func registerEnvStubs(e *Engine) {
 				node.insert("http://verif/doc", iface{t: types.Typ[types.String], v: tok})
 			}
 		}
+		nodes := []value{iface{t: mt, v: node}}
+		// a well-formed JSON-LD document need not be a well-formed model: here a source map whose lexical
+		// entry is a reference to something that is not a node of the document (the repository's own
+		// indexing fails on it, after both library stages succeeded)
+		if ps.flagDecide("flatten.odd") {
+			sm := makeMap(types.Typ[types.String], 0).(*omap)
+			sm.insert("@id", iface{t: types.Typ[types.String], v: "sm1"})
+			sm.insert("@type", iface{t: types.Typ[types.String], v: "http://a.ml/vocabularies/document-source-maps#SourceMap"})
+			ref := makeMap(types.Typ[types.String], 0).(*omap)
+			ref.insert("@id", iface{t: types.Typ[types.String], v: "missing"})
+			sm.insert("http://a.ml/vocabularies/document-source-maps#lexical", iface{t: mt, v: ref})
+			nodes = append(nodes, iface{t: mt, v: sm})
+		}
 		top := makeMap(types.Typ[types.String], 0).(*omap)
-		top.insert("@graph", iface{t: types.NewSlice(anyType), v: []value{iface{t: mt, v: node}}})
+		top.insert("@graph", iface{t: types.NewSlice(anyType), v: nodes})
 		return tuple{iface{t: mt, v: top}, iface{}}
 	}
 	in["("+ldPkg+".JsonLdError).Error"] = func(fr *frame, a []value) value { return "stub: invalid local context" }
@@ -1242,6 +1285,7 @@ type jsonDecoder struct {
 	decided   bool
 	bad       bool
 	docs      int
+	native    *json.Decoder // concrete text: the real decoder, kept so that Token / More see what is left
 }
 
 // unreadable: is no complete JSON value readable from this decoder's input? (environment's choice,
